@@ -794,6 +794,16 @@ func (c *EvalCtx) evalCall(n ECall, want *Sort) (Val, error) {
 		if err != nil {
 			return Val{}, err
 		}
+		if v.S[0].K == SInt && v.S[0].Bits == 0 && s.K == SInt && s.Bits != 0 {
+			// explicit conversion of a mathematical integer: Go's wrap-around
+			if l, ok := isLit(v.One()); ok {
+				lo, hi := rangeOf(s)
+				if l.Cmp(lo) >= 0 && l.Cmp(hi) <= 0 {
+					return scalar(s, v.One()), nil
+				}
+			}
+			return scalar(s, x.wrap(v.One(), s)), nil
+		}
 		return scalar(s, x.convert(v.One(), v.S[0], s)), nil
 	case "bits":
 		// IEEE bits of a float (fp+bv mode): fresh b with to_fp(b) = x
@@ -912,9 +922,11 @@ func (c *EvalCtx) callSpecFn(fn *SpecFn, args []Val) (Val, error) {
 		if fn.Body == nil {
 			x.vc.DeclareRaw(name, "(declare-fun "+name+" ("+strings.Join(ps, " ")+") "+rs.SMT()+")")
 		} else {
-			if _, ok := x.vc.prelude[name]; !ok {
-				// placeholder first to cut recursion
-				x.vc.DeclareRaw(name, "")
+			if _, ok := x.vc.prelude[name]; !ok && !x.recBusy[name] {
+				if x.recBusy == nil {
+					x.recBusy = map[string]bool{}
+				}
+				x.recBusy[name] = true
 				cc := &EvalCtx{x: x, names: map[string]Val{}, st: c.st}
 				var binders []string
 				for _, p := range fn.Params {
@@ -923,11 +935,15 @@ func (c *EvalCtx) callSpecFn(fn *SpecFn, args []Val) (Val, error) {
 					binders = append(binders, "("+bn+" "+s.SMT()+")")
 					cc.names[p.Name] = scalar(s, bn)
 				}
+				x.vc.inQuant++
 				b, err := cc.eval(fn.Body, rs)
+				x.vc.inQuant--
+				delete(x.recBusy, name)
 				if err != nil {
 					return Val{}, fmt.Errorf("spec fn %s: %v", fn.Name, err)
 				}
-				x.vc.prelude[name].Raw = "(define-fun-rec " + name + " (" + strings.Join(binders, " ") + ") " + rs.SMT() + " " + b.One() + ")"
+				// dependencies were declared while evaluating the body: register afterwards
+				x.vc.DeclareRaw(name, "(define-fun-rec "+name+" ("+strings.Join(binders, " ")+") "+rs.SMT()+" "+b.One()+")")
 			}
 		}
 		if len(as) == 0 {
